@@ -6,6 +6,7 @@ import JT.Proof.FrameChecked
 import JT.Proof.Codec2
 import JT.Proof.UnescChecked
 import JT.Proof.Codec4
+import JT.Proof.Params
 /-!
 # C03 — decoders are total functions of their input
 
@@ -110,5 +111,22 @@ theorem vendor_extensions (dl : AttStream.Dialect) (c : Bytes) :
     (Codec4.parseExt66 dl c = .panic ↔ Codec4.ext66Panics c = true) ∧ Codec4.parseExt66 dl c ≠ .ok () :=
   ⟨Codec4.parseExt64_ne_panic dl c, Codec4.parseExt65_ne_panic dl c, Codec4.parseExt67_ne_panic dl c,
    Codec4.parseExt70_ne_panic dl c, Codec4.parseExt66_panic_iff dl c, Codec4.parseExt66_ne_ok dl c⟩
+
+/-- the terminal-parameter table read off `parseParam` on every run is safe (every clause that reads `content` has
+demanded a length that covers the read) and the extractor recognised every clause -/
+theorem param_table_safe : Params.tableSafe Gen.paramTable = true ∧ Gen.paramUntranslated = [] := by decide
+
+/-- **terminal parameters never panic**: `TerminalParamDetails.parse`, `P0x8103.Parse` and `T0x0104.Parse`, for every
+count byte and every body — every parameter ID of the regenerated table, unknown IDs, truncated heads, lengths that run
+past the body, a count that wraps -/
+theorem terminal_params_no_panic (count : Nat) (b : Bytes) :
+    Params.parseDetails count b ≠ .panic ∧ Params.parse8103 b ≠ .panic ∧ Params.parse0104 b ≠ .panic :=
+  ⟨Params.parseDetails_ne_panic param_table_safe.1 count b, Params.parse8103_ne_panic param_table_safe.1 b,
+   Params.parse0104_ne_panic param_table_safe.1 b⟩
+
+/-- Non-vacuity: a 0x8103 body with two known parameters (a DWORD and a string) and an unknown one is accepted; the
+same body with the DWORD's length byte changed to 2 is rejected, not read -/
+example : (Params.parse8103 [3, 0,0,0,1, 4, 0,0,0,60, 0,0,0,0x10, 2, 0x61,0x62, 0,0,0xf0,0, 1, 9]).isOk = true ∧
+    Params.parse8103 [1, 0,0,0,1, 2, 0,60] = .err := by decide
 
 end JT.C03
